@@ -134,6 +134,8 @@ func genExchange(x *X, env *sysEnv, cl *sClient, streaming bool) *exchange {
 	ex := env.newExchange(cl)
 	ex.method = []string{"GET", "GET", "POST", "PUT", "DELETE", "HEAD", "OPTIONS", "PATCH"}[c.Intn(8, "method")]
 	ex.target = []string{"/", "/a/b/c", "/path%20with%20space", "/x%2Fy", "/q?x=1&y=2&y=3", "/caf%C3%A9?%C3%A9=1", "/a//b", "/very/" + strings.Repeat("long/", 20), "/?", "/semi;colon=1?a=b;c", "/pct?x=100%&y=%zz", "/order?b=2&a=1&b=1", "/sp?q=a+b%20c&empty=&novalue"}[c.Intn(13, "target")]
+	// the Host the client addresses: virtual hosts are told apart by it, spelled as the client spells it
+	ex.host = []string{"", "", "", "Shop.Example.TEST", "www.example.test:80", "API.example.test:8080", "[2001:DB8::1]:80", "xn--caf-dma.example"}[c.Intn(8, "host")]
 	nh := c.Intn(4, "nreqhdr")
 	used := map[string]bool{}
 	for i := 0; i < nh; i++ {
@@ -274,7 +276,21 @@ func runSysXfer(x *X) {
 	var all []*exchange
 	for i := 0; i < nEx; i++ {
 		cl := env.clients[c.Intn(nClients, "client")]
-		all = append(all, genExchange(x, env, cl, c.Intn(5, "streaming") == 0))
+		ex := genExchange(x, env, cl, c.Intn(5, "streaming") == 0)
+		// a backend that stamps its own value on the identifier header (an app server with its own
+		// request-ID middleware): the client still gets one value, the one the backend was sent
+		// (with the feature off the header is the backend's business and passes through: not drawn)
+		if ex.resp != nil && c.Intn(8, "backend-stamps-id") == 0 {
+			if o.logging.RequestID.Enabled {
+				ex.resp.hdr = append(ex.resp.hdr, hdrKV{logging.RequestHeaderName(env.cfg.Logging), fmt.Sprintf("backend-own-rid-%d", i)})
+				x.Probe("backend-stamps-its-own-identifier")
+			}
+			if o.logging.Trace.Enabled && c.Intn(2, "backend-stamps-trace") == 1 {
+				ex.resp.hdr = append(ex.resp.hdr, hdrKV{logging.TraceHeaderName(env.cfg.Logging), fmt.Sprintf("backend-own-tid-%d", i)})
+				x.Probe("backend-stamps-its-own-identifier")
+			}
+		}
+		all = append(all, ex)
 	}
 	x.Sample["config"] = fmt.Sprintf("strategy=%s backends=%d bases=%v request_id=%v trace=%v plugins=%d clients=%d exchanges=%d", o.strategy, o.nBackends, o.basePath, o.logging.RequestID.Enabled, o.logging.Trace.Enabled, len(o.plugins), nClients, nEx)
 	var desc []string
@@ -380,6 +396,13 @@ func checkTransparentAs(x *X, prop string, env *sysEnv, ex *exchange, rh, th str
 	wantTarget := baseOf(env, sr.backend) + ex.target
 	if sr.target != wantTarget {
 		x.Violate(prop, prop+"/target-differs", "exchange %d: client sent %q (backend base %q), backend saw %q, expected %q", ex.id, ex.target, baseOf(env, sr.backend), sr.target, wantTarget)
+	}
+	wantHost := ex.host
+	if wantHost == "" {
+		wantHost = "helios.test"
+	}
+	if sr.host != wantHost {
+		x.Violate(prop, prop+"/host-differs", "exchange %d: the client sent Host %q, the backend received Host %q", ex.id, wantHost, sr.host)
 	}
 	if ex.expect == "decline" {
 		// the backend answered without reading the body: nothing to compare on the body, but the
